@@ -17,35 +17,26 @@ show up in the modelled stream exactly as it does in Rust.  One level is not wir
 `normal_gen`/`uniform_gen` fields, for which `Cv.Gamma.sample` substitutes `Normal(0,1)`/`Uniform(0,1)`; no
 method ever assigns those two fields after `Gamma::new` (theorem `coherent_inv`).
 
-Instantiated at `Float` (this part of the model exists for the bit-for-bit correspondence; the theorems of
-C18 hold for *every* function of the record, see `Props/C18.lean`).  No Mathlib.
+Polymorphic in the scalar `α` (special functions and constants are the parameter `F : Cv.Dist.Fns α`, as in
+`Model/DistPdf.lean`): `densityP`, `meanP`, `varP`, `sampleP`, `drawsP`.  The compiled driver uses the `Float`
+instances `densityD`, `meanD`, `varD`, `sampleD`, `drawsD` below (bit-for-bit correspondence); `Props/C18.lean`
+instantiates `observational_equality` / `stream_equality` with the same definitions over an ordered field.
+
+`Exponential`, `Gumbel` and `Pareto` redraw while the uniform draw is exactly 0 (repair F53): `drawNonzero` with fuel
+(`none` = fuel exhausted; every redraw has probability 2⁻⁵³).  No Mathlib.
 -/
 namespace Cv.DS
 open Cv
 
-/-- The special functions at `Float` (same wiring as `Drv/C02.lean`). -/
-def floatFns : Cv.Dist.Fns Float where
-  pi := Float.ofBits C02T.piBits
-  gamma := Cv.gammaFn
-  lnGamma := Cv.lnGammaFn
-  erf := Cv.erfFn
-  ln1p := Cv.log1pF
-  euler := Float.ofBits C02T.eulerBits
-
-def momentF : Cv.Dist.Moment Float → Float
-  | .fin x => x
-  | .inf => 1.0 / 0.0
-  | .nan => 0.0 / 0.0
-
 def inI64 (i : Int) : Bool := decide (-(2 ^ 63 : Int) ≤ i ∧ i < 2 ^ 63)
 
-/-- A probe: `f64` for densities, `i64` for mass functions. -/
-abbrev Probe := Arg Float
+section
+variable {α : Type} [Add α] [Sub α] [Mul α] [Div α] [Neg α] [Zero α] [One α] [NatCast α] [IntCast α]
+  [LT α] [DecidableLT α] [LE α] [DecidableLE α] [BEq α] [Transc α] [OfLit α] [Log1p α] [ToU64 α] [FiniteTest α]
 
-/-- `pdf(x)` / `pmf(k)`; `none` = the call panics (`i64` overflow in `DiscreteUniform::pmf`) or the probe
-has the wrong type. -/
-def densityD (d : Dist Float) (p : Probe) : Option Float :=
-  let F := floatFns
+/-- `pdf(x)` / `pmf(k)` of the record; `none` = the call panics (`i64` overflow in `DiscreteUniform::pmf`) or the
+probe has the wrong type (`f64` for densities, `i64` for mass functions). -/
+def densityP (F : Cv.Dist.Fns α) (d : Dist α) (p : Arg α) : Option α :=
   match d, p with
   | .bernoulli d, .int k => some (Cv.Dist.Bernoulli.pmf d.p k)
   | .binomial d, .int k => some (Cv.Dist.Binomial.pmf F d.n d.p k)
@@ -66,48 +57,53 @@ def densityD (d : Dist Float) (p : Probe) : Option Float :=
   | .uniform d, .real x => some (Cv.Dist.Uniform.pdf d.lower d.upper x)
   | _, _ => none
 
-/-- `Mean::mean`; `none` = panic (`lower + upper` overflows `i64`). -/
-def meanD (d : Dist Float) : Option Float :=
-  let F := floatFns
+/-- `Mean::mean` of the record; `none` = panic (`lower + upper` overflows `i64`). -/
+def meanP (F : Cv.Dist.Fns α) (d : Dist α) : Option (Cv.Dist.Moment α) :=
   match d with
-  | .bernoulli d => some (Cv.Dist.Bernoulli.mean d.p)
-  | .beta d => some (Cv.Dist.Beta.mean d.alpha d.beta)
-  | .binomial d => some (Cv.Dist.Binomial.mean d.n d.p)
-  | .chisquared d => some (Cv.Dist.ChiSquared.mean d.dof)
+  | .bernoulli d => some (.fin (Cv.Dist.Bernoulli.mean d.p))
+  | .beta d => some (.fin (Cv.Dist.Beta.mean d.alpha d.beta))
+  | .binomial d => some (.fin (Cv.Dist.Binomial.mean d.n d.p))
+  | .chisquared d => some (.fin (Cv.Dist.ChiSquared.mean d.dof))
   | .discreteuniform d =>
-    if inI64 (d.lower + d.upper) then some (Cv.Dist.DiscreteUniform.mean d.lower d.upper) else none
-  | .exponential d => some (Cv.Dist.Exponential.mean d.lambda)
-  | .gamma d => some (Cv.Dist.Gamma.mean d.alpha d.beta)
-  | .gumbel d => some (Cv.Dist.Gumbel.mean F d.mu d.beta)
-  | .normal d => some (Cv.Dist.Normal.mean d.mu d.sigma)
-  | .pareto d => some (momentF (Cv.Dist.Pareto.mean d.alpha d.minval))
-  | .poisson d => some (Cv.Dist.Poisson.mean d.lambda)
-  | .t d => some (momentF (Cv.Dist.T.mean d.dof))
-  | .uniform d => some (Cv.Dist.Uniform.mean d.lower d.upper)
+    if inI64 (d.lower + d.upper) then some (.fin (Cv.Dist.DiscreteUniform.mean d.lower d.upper)) else none
+  | .exponential d => some (.fin (Cv.Dist.Exponential.mean d.lambda))
+  | .gamma d => some (.fin (Cv.Dist.Gamma.mean d.alpha d.beta))
+  | .gumbel d => some (.fin (Cv.Dist.Gumbel.mean F d.mu d.beta))
+  | .normal d => some (.fin (Cv.Dist.Normal.mean d.mu d.sigma))
+  | .pareto d => some (Cv.Dist.Pareto.mean d.alpha d.minval)
+  | .poisson d => some (.fin (Cv.Dist.Poisson.mean d.lambda))
+  | .t d => some (Cv.Dist.T.mean d.dof)
+  | .uniform d => some (.fin (Cv.Dist.Uniform.mean d.lower d.upper))
 
-/-- `Variance::var`; `none` = panic (`upper - lower + 1` overflows `i64`). -/
-def varD (d : Dist Float) : Option Float :=
-  let F := floatFns
+/-- `Variance::var` of the record; `none` = panic (`upper - lower + 1` overflows `i64`). -/
+def varP (F : Cv.Dist.Fns α) (d : Dist α) : Option (Cv.Dist.Moment α) :=
   match d with
-  | .bernoulli d => some (Cv.Dist.Bernoulli.var d.p)
-  | .beta d => some (Cv.Dist.Beta.var d.alpha d.beta)
-  | .binomial d => some (Cv.Dist.Binomial.var d.n d.p)
-  | .chisquared d => some (Cv.Dist.ChiSquared.var d.dof)
+  | .bernoulli d => some (.fin (Cv.Dist.Bernoulli.var d.p))
+  | .beta d => some (.fin (Cv.Dist.Beta.var d.alpha d.beta))
+  | .binomial d => some (.fin (Cv.Dist.Binomial.var d.n d.p))
+  | .chisquared d => some (.fin (Cv.Dist.ChiSquared.var d.dof))
   | .discreteuniform d =>
     if inI64 (d.upper - d.lower) && inI64 (d.upper - d.lower + 1) then
-      some (Cv.Dist.DiscreteUniform.var d.lower d.upper)
+      some (.fin (Cv.Dist.DiscreteUniform.var d.lower d.upper))
     else none
-  | .exponential d => some (Cv.Dist.Exponential.var d.lambda)
-  | .gamma d => some (Cv.Dist.Gamma.var d.alpha d.beta)
-  | .gumbel d => some (Cv.Dist.Gumbel.var F d.mu d.beta)
-  | .normal d => some (Cv.Dist.Normal.var d.mu d.sigma)
-  | .pareto d => some (momentF (Cv.Dist.Pareto.var d.alpha d.minval))
-  | .poisson d => some (Cv.Dist.Poisson.var d.lambda)
-  | .t d => some (momentF (Cv.Dist.T.var d.dof))
-  | .uniform d => some (Cv.Dist.Uniform.var d.lower d.upper)
+  | .exponential d => some (.fin (Cv.Dist.Exponential.var d.lambda))
+  | .gamma d => some (.fin (Cv.Dist.Gamma.var d.alpha d.beta))
+  | .gumbel d => some (.fin (Cv.Dist.Gumbel.var F d.mu d.beta))
+  | .normal d => some (.fin (Cv.Dist.Normal.var d.mu d.sigma))
+  | .pareto d => some (Cv.Dist.Pareto.var d.alpha d.minval)
+  | .poisson d => some (.fin (Cv.Dist.Poisson.var d.lambda))
+  | .t d => some (Cv.Dist.T.var d.dof)
+  | .uniform d => some (.fin (Cv.Dist.Uniform.var d.lower d.upper))
 
-/-- `Distribution::sample` on the record.  `none` = the rejection loop ran out of `fuel`, or a panic. -/
-def sampleD (fuel ifuel : Nat) (d : Dist Float) (g : Rng) : Option (Float × Rng) :=
+/-- `let mut u = draw(); while u == 0. { u = draw(); }` (repair F53).  `none` = out of fuel. -/
+def drawNonzero (draw : Rng → α × Rng) : Nat → Rng → Option (α × Rng)
+  | 0, _ => none
+  | fuel + 1, g =>
+    let r := draw g
+    if r.1 == 0 then drawNonzero draw fuel r.2 else some r
+
+/-- `Distribution::sample` on the record.  `none` = a rejection / redraw loop ran out of `fuel`, or a panic. -/
+def sampleP (fuel ifuel : Nat) (d : Dist α) (g : Rng) : Option (α × Rng) :=
   match d with
   | .bernoulli d => some (Cv.Bernoulli.sample d.p g)
   | .beta d =>
@@ -119,27 +115,62 @@ def sampleD (fuel ifuel : Nat) (d : Dist Float) (g : Rng) : Option (Float × Rng
       | some (y, g) =>
         -- repair F43: both variates underflowed; this branch reads `self.alpha`, `self.beta`
         if x + y == 0 then
-          let (u, g) := g.f64 (α := Float)
+          let (u, g) := g.f64 (α := α)
           some (if u * (d.alpha + d.beta) < d.alpha then 1 else 0, g)
         else some (x / (x + y), g)
   | .binomial d => Cv.Binomial.sample fuel ifuel d.n d.p g
   | .chisquared d => Cv.Gamma.sample fuel d.sampler.alpha d.sampler.beta g
   | .discreteuniform d => Cv.DiscreteUniform.sample lemireFuel d.lower d.upper g
   | .exponential d =>
-    let (u, g) := Cv.UniformF.sample d.rng.lower d.rng.upper g
-    some (-(Float.log u) / d.lambda, g)
+    match drawNonzero (Cv.UniformF.sample d.rng.lower d.rng.upper) fuel g with
+    | none => none
+    | some (u, g) => some (-(Transc.ln u) / d.lambda, g)
   | .gamma d => Cv.Gamma.sample fuel d.alpha d.beta g
   | .gumbel d =>
-    let (u, g) := Cv.UniformF.sample d.uniform_gen.lower d.uniform_gen.upper g
-    some (d.mu - d.beta * Float.log (-(Float.log u)), g)
+    match drawNonzero (Cv.UniformF.sample d.uniform_gen.lower d.uniform_gen.upper) fuel g with
+    | none => none
+    | some (u, g) => some (d.mu - d.beta * Transc.ln (-(Transc.ln u)), g)
   | .normal d => Cv.Normal.sample fuel d.mu d.sigma g
-  | .pareto d => some (Cv.Pareto.sample d.alpha d.minval g)
+  | .pareto d =>
+    match drawNonzero (fun g => g.f64 (α := α)) fuel g with
+    | none => none
+    | some (u, g) => some (d.minval / Transc.pow u (1 / d.alpha), g)
   | .poisson d => Cv.Poisson.sample fuel d.lambda g
   | .t d => Cv.T.sample fuel d.dof g
   | .uniform d => some (Cv.UniformF.sample d.lower d.upper g)
 
+/-- `n` calls of `sample()` from generator state `g` (the values only). -/
+def drawsP (fuel ifuel : Nat) (d : Dist α) (g : Rng) (n : Nat) : Option (List α) :=
+  (Rng.drawN? (sampleP fuel ifuel d) n g).map (·.1)
+
+end
+
+/-! ## The `Float` instance used by the compiled driver -/
+
+/-- The special functions at `Float` (same wiring as `Drv/C02.lean`). -/
+def floatFns : Cv.Dist.Fns Float where
+  pi := Float.ofBits C02T.piBits
+  gamma := Cv.gammaFn
+  lnGamma := Cv.lnGammaFn
+  erf := Cv.erfFn
+  ln1p := Cv.log1pF
+  euler := Float.ofBits C02T.eulerBits
+
+def momentF : Cv.Dist.Moment Float → Float
+  | .fin x => x
+  | .inf => 1.0 / 0.0
+  | .nan => 0.0 / 0.0
+
+/-- A probe: `f64` for densities, `i64` for mass functions. -/
+abbrev Probe := Arg Float
+
+def densityD (d : Dist Float) (p : Probe) : Option Float := densityP floatFns d p
+def meanD (d : Dist Float) : Option Float := (meanP floatFns d).map momentF
+def varD (d : Dist Float) : Option Float := (varP floatFns d).map momentF
+def sampleD (fuel ifuel : Nat) (d : Dist Float) (g : Rng) : Option (Float × Rng) := sampleP fuel ifuel d g
+
 /-- `alea::set_seed(seed)` followed by `n` calls of `sample()`. -/
 def drawsD (fuel ifuel : Nat) (d : Dist Float) (seed : UInt64) (n : Nat) : Option (List Float) :=
-  (Rng.drawN? (sampleD fuel ifuel d) n (Rng.ofSeed seed)).map (·.1)
+  drawsP fuel ifuel d (Rng.ofSeed seed) n
 
 end Cv.DS
